@@ -108,7 +108,8 @@ theorem stage_produces (st : Stage α) (hwf : st.WF) (p : Pipe α) (fu : Nat) {v
         exact this
       · exact hc0
   | count mark => exact ⟨count_produces mark p.gen p.clock fu h (show 2 ≤ fu by omega), rfl, rfl⟩
-  | runIf sel inner => exact ⟨runIf_produces sel inner p.gen p.clock fu h (show vals.length < fu by omega), rfl, rfl⟩
+  | runIf ι init sel inner =>
+    exact ⟨runIf_produces init sel inner p.gen p.clock fu h (show vals.length < fu by omega), rfl, rfl⟩
   | split σb brs bufsize copyBuf =>
     by_cases he : brs.isEmpty = true
     · rw [Stage.run_split_empty σb brs bufsize copyBuf he]
@@ -573,16 +574,15 @@ theorem stage_refines_list (st : Stage α) (hwf : st.WF) (sf : SF α) :
     cases sf.vals with
     | nil => rfl
     | cons p r => obtain ⟨a, c⟩ := p; simp [countDen, countSpecGo_fst]
-  | runIf sel inner =>
+  | runIf ι init sel inner =>
     simp only [Stage.spec, Stage.den, runIfSpec]
-    induction sf.vals with
+    generalize init = i
+    induction sf.vals generalizing i with
     | nil => rfl
     | cons p r ih =>
-      simp only [List.flatMap_cons, List.map_append, List.map_cons, ih]
-      congr 1
       by_cases h : sel p.1 = true
-      · simp [h, Function.comp_def]
-      · simp [h]
+      · simp [runIfSpecGo, runIfDenGo, h, ih, Function.comp_def]
+      · simp [runIfSpecGo, runIfDenGo, h, ih]
   | split σb brs bufsize copyBuf =>
     by_cases he : brs.isEmpty = true
     · simp [Stage.spec, Stage.den, he, mapSpec, Lena.C03.Split.run, emptyRun_eq]
